@@ -217,6 +217,27 @@ class Case:
                 if g not in honest_in:
                     self.fail("I3", "originator", f"originator received data that was never sent to it: {g[2][:40]!r}")
             if fault and state["hit"] is not None:
+                # exposure also counts for altered cells: whatever travels on after the alteration must again differ
+                # from link to link (a relay that forwards a cell without adding or removing its layer lets an observer
+                # correlate both links)
+                seen_links: dict[tuple, list[bytes]] = {}
+                for fl in w.net.log:
+                    if fl.seq <= seq0:
+                        continue
+                    cell = parse_cell(fl.data, w.prefix)
+                    if cell is None or len(cell["message"]) < 16:
+                        continue
+                    seen_links.setdefault((fl.src, fl.dst), []).append(cell["message"])
+                link_keys = list(seen_links)
+                for a in range(len(link_keys)):
+                    for b in range(a + 1, len(link_keys)):
+                        for ma in seen_links[link_keys[a]]:
+                            for mb in seen_links[link_keys[b]]:
+                                for off in range(0, len(ma) - 15, 4):
+                                    if ma[off:off + 16] in mb:
+                                        self.fail("I2", "ciphertext:after_alteration",
+                                                  f"after a cell was altered in flight ({state['hit']}) 16 identical bytes "
+                                                  f"travelled on two links {link_keys[a]} and {link_keys[b]}")
                 hit_kind, pos = state["hit"]
                 unauth_flag = hit_kind == "flip" and pos == 28
                 if not unauth_flag and hit_kind == "flip" and pos in (27,):
